@@ -3,6 +3,7 @@ from __future__ import annotations
 
 from typing import Any, Dict, List, Optional, Tuple
 
+from .. import wire
 from ..explore import Chooser, Stats, digest, explore_deviations
 from ..models.responder_model import Svc
 from ..scen import make_info
@@ -51,6 +52,36 @@ class BrowserLog:
 
     def update_service(self, zc: Any, t: str, n: str) -> None:
         pass
+
+
+def goodbye_dropped_as_duplicate(w: World, log: "BrowserLog", inst: str) -> bool:
+    """The shape of the open finding: after the browsing host last reported `inst` Added, a goodbye for it did arrive on
+    one of that host's sockets, and every such goodbye was byte-identical to the datagram that socket had received just
+    before (less than a second earlier) - which is when AsyncListener's per-socket duplicate guard discards it."""
+    adds = [t for t, k, n in log.events if k == "add" and n.lower() == inst]
+    if not adds:
+        return False
+    t_add = adds[-1]
+    last_on_sock: Dict[int, Tuple[float, bytes]] = {}
+    arrived, processed = 0, 0
+    for (t, hname, data, src), sock in zip(w.net.arrivals, w.net.arrival_socks):
+        if hname != log.owner.name:
+            continue
+        prev = last_on_sock.get(sock)
+        dup = prev is not None and prev[1] == data and t - prev[0] < 1000
+        # the guard remembers every datagram it sees, also those it discards
+        last_on_sock[sock] = (t, data)
+        if t < t_add:
+            continue
+        try:
+            m = wire.decode(data)
+        except wire.Reject:
+            continue
+        if m.is_response and any(r[0] == "PTR" and r[3] == 0 and str(r[4]).lower() == inst for r in m.records()):
+            arrived += 1
+            if not dup:
+                processed += 1
+    return arrived > 0 and processed == 0
 
 
 class Scenario:
@@ -152,6 +183,17 @@ class Scenario:
                 ops.append((t_upd + v["browse_at"], lambda: start_browser("B/a", B, TA)))
                 ops.append((t_upd + v["unregister_after"], lambda: w.spawn(op_unregister(A, "S1"))))
                 checkpoints.append(t_upd + v["unregister_after"] + 300 + SETTLE_MS)
+            elif self.name == "leave":
+                # the service is withdrawn (or its host closed) a few tens of milliseconds after a browser elsewhere started:
+                # the reply to the browser's first query and the goodbyes are on the link together
+                ops.append((1000, lambda: w.spawn(op_register(A, "S1", S1))))
+                ops.append((v["browse_at"], lambda: start_browser("B/a", B, TA)))
+                t_op = v["browse_at"] + v["after"]
+                if v["how"] == "close":
+                    ops.append((t_op, lambda: w.spawn(op_close(A))))
+                else:
+                    ops.append((t_op, lambda: w.spawn(op_unregister(A, "S1"))))
+                checkpoints.append(t_op + 400 + SETTLE_MS)
             elif self.name in ("unregister", "update-close"):
                 ops.append((v["browse_at"], lambda: start_browser("B/a", B, TA)))
                 ops.append((1000, lambda: w.spawn(op_register(A, "S1", S1))))
@@ -188,7 +230,11 @@ class Scenario:
                     for key, (log, type_) in browsers.items():
                         want = registered_at(w.now_ms, type_)
                         if log.live != want:
-                            problems.append(f"convergence: browser {key} reports {sorted(log.live)} {t / 1000:.1f} s in, "
+                            cls = "convergence"
+                            if log.live - want and not (want - log.live) and all(
+                                    goodbye_dropped_as_duplicate(w, log, x) for x in log.live - want):
+                                cls = "goodbye-dropped-as-duplicate"
+                            problems.append(f"{cls}: browser {key} reports {sorted(log.live)} {t / 1000:.1f} s in, "
                                             f"registered on the link: {sorted(want)}; callbacks "
                                             f"{[(round(tt - t0), kk, n) for tt, kk, n in log.events]}")
             # lookups made from add_service
@@ -236,6 +282,11 @@ def plan(tier: str) -> List[Tuple[str, Dict[str, Any], int]]:
             ("churn", {"update_at": 19500, "browse_at": 400, "unregister_after": 1500, "late": True}, 2),
             ("churn", {"update_at": 19500, "browse_at": 100, "unregister_after": 1150, "late": True}, 2),
             ("churn", {"update_at": 19500, "browse_at": 400, "unregister_after": 1500}, 1),
+            ("leave", {"browse_at": 5000, "after": 30, "how": "unregister", "late": True}, 2),
+            ("leave", {"browse_at": 5000, "after": 30, "how": "close", "late": True}, 2),
+            ("leave", {"browse_at": 5000, "after": 130, "how": "close"}, 2),
+            ("leave", {"browse_at": 5000, "after": 30, "how": "unregister", "late": True, "socks": "dual"}, 2),
+            ("leave", {"browse_at": 5000, "after": 130, "how": "close", "late": True, "socks": "dual"}, 2),
             # the same link with IPv6-only hosts, and with hosts that send on an IPv4 and an IPv6 socket (every datagram twice)
             ("unregister", {"browse_at": 0, "socks": "single6"}, 2), ("update-close", {"browse_at": 5000, "late": True, "socks": "single6"}, 2),
             ("unregister", {"browse_at": 1200, "late": True, "socks": "dual"}, 1), ("three", {"browse_at": 500, "socks": "dual"}, 1)]
@@ -252,7 +303,7 @@ def run(tier: str, seed: int) -> Tuple[Stats, str, List[str], Dict[str, Any]]:
             raise HarnessError(f"C07 scenario {name} is not deterministic")
         if a[0] is None and a[2] < 8:
             raise HarnessError(f"C07 scenario {name} is vacuous: {a[2]} datagrams in the default execution")
-        label = f"{name}/{variant['browse_at']}{'/late' if variant.get('late') else ''}{'/multi' if variant.get('multi') else ''}{'/' + variant['socks'] if variant.get('socks') else ''}" + (
+        label = f"{name}/{variant['browse_at']}{'/late' if variant.get('late') else ''}{'/multi' if variant.get('multi') else ''}{'/' + variant['socks'] if variant.get('socks') else ''}{'/' + variant['how'] + '+' + str(variant['after']) if name == 'leave' else ''}" + (
             f"/unreg+{variant['unregister_after']}" if name == "churn" else "")
         done = explore_deviations(sc.run, bound, stats, label,
                                   max_execs=None if tier == "quick" else 1_500_000)
